@@ -110,9 +110,9 @@ Definition ledger0 (c : case) : ledger :=
            | 1%nat => c_bx c | 2%nat => c_by c | 3%nat => c_bz c
            | 4%nat => 1000000000000000 | 6%nat => 1000000000000 | _ => 0 end.
 
-Definition run_base (c : case) : state :=
+Definition run_base (m : mode) (c : case) : state :=
   let d := deliver_script c (c_gas_base c) (c_gas2_base c) in
-  run Shared (repeat 0%nat (length d)) (init [d] (fun _ => ledger0 c)).
+  run m (repeat 0%nat (length d)) (init [d] (fun _ => ledger0 c)).
 
 Definition with_threads (c : case) : list (list step) :=
   deliver_script c (c_gas_with c) (c_gas2_with c) :: map query_script (c_queries c).
@@ -121,8 +121,8 @@ Definition with_schedule (c : case) : list tid :=
   schedule c (length (tx1_script c (c_gas_with c))) (length (deliver_script c (c_gas_with c) (c_gas2_with c)))
            (map query_script (c_queries c)).
 
-Definition run_with (c : case) : state :=
-  run Shared (with_schedule c) (init (with_threads c) (fun _ => ledger0 c)).
+Definition run_with (m : mode) (c : case) : state :=
+  run m (with_schedule c) (init (with_threads c) (fun _ => ledger0 c)).
 
 Definition ev_eqb (a b : ev) : bool :=
   match a, b with
@@ -137,9 +137,9 @@ Fixpoint evs_eqb (a b : list ev) : bool :=
   | _, _ => false
   end.
 
-Definition predict (c : case) : obs :=
-  let b := run_base c in
-  let w := run_with c in
+Definition predict (m : mode) (c : case) : obs :=
+  let b := run_base m c in
+  let w := run_with m c in
   let bl := map (committed b) all_accts in
   let wl := map (committed w) all_accts in
   let fb := failed (thr b 0%nat) in
@@ -171,11 +171,18 @@ Definition events_out_of_reach (c : case) : bool := model_hazard c.
 Definition obs_forget_tx (o : obs) : obs :=
   mkObs (o_hash_eq o) (o_next_eq o) true (o_base_ok o) (o_with_ok o) (o_base o) (o_with o).
 
-Definition mismatch (c : case) : bool :=
-  let p := predict c in
-  if out_of_reach c
-  then negb (zlist_eqb (o_base p) (o_base (c_obs c)) && Bool.eqb (o_base_ok p) (o_base_ok (c_obs c)))
-  else if events_out_of_reach c then negb (obs_eqb (obs_forget_tx p) (obs_forget_tx (c_obs c)))
-  else negb (obs_eqb p (c_obs c)).
+(** [m]: the model the current tree is compared with (Sites.mode_of of the generated inventory) *)
+Definition mismatch_in (m : mode) (c : case) : bool :=
+  let p := predict m c in
+  match m with
+  | Isolated => negb (obs_eqb p (c_obs c))
+  | Shared =>
+      if out_of_reach c
+      then negb (zlist_eqb (o_base p) (o_base (c_obs c)) && Bool.eqb (o_base_ok p) (o_base_ok (c_obs c)))
+      else if events_out_of_reach c then negb (obs_eqb (obs_forget_tx p) (obs_forget_tx (c_obs c)))
+      else negb (obs_eqb p (c_obs c))
+  end.
+
+Definition mismatch (c : case) : bool := mismatch_in Shared c.
 
 Definition violates (c : case) : bool := negb (Pb (c_obs c)).
